@@ -33,7 +33,7 @@ PROPS.update({
                 "endings x eager actions x retry states x recurring x result x converter, plus concurrent mixes of up to 8). Oracle-only families on top: an eager response racing the actor's time limit over a broker whose calls take 0 / 30 ms (168 runs; fix 13f6c0a recorded) and two overlapping deliveries of one message id (16 runs; fix 3608da2 recorded): exactly one terminal action per delivery, at most one place afterwards.",
         "note": "In-memory broker only; a raising broker call is excluded by hypothesis (no_faults); actor bodies that catch "
                 "BaseException are outside the model; thread/process-pool actors are not exercised.",
-        "technique": "Coq proof by invariant over API-call sequences + differential correspondence via a real Worker in virtual time",
+        "technique": "Coq proof by invariant over API-call sequences + disposition ladder regenerated from source by a translator (equality proved) + differential correspondence via a real Worker in virtual time",
         "design": "DESIGN.md §3 C02",
     },
     "C04": {
@@ -76,7 +76,7 @@ PROPS.update({
                 "Handle.wanted (C16_source_is_model_handle / _dependency / _default_success). Tie of the rest: exhaustive call sequences up to length 3 (Message) / 2 (MessageDependency) x "
                 "categories x retry states, plus random longer ones with injected failures (~3.5k per quick run).",
         "note": "In-memory broker; plain Message has no set_result/add_callback; actor bodies catching BaseException are outside the model.",
-        "technique": "Coq proof by induction over call sequences + exhaustive-to-a-length differential correspondence",
+        "technique": "Coq proof by induction over call sequences + handle guards regenerated from source by a translator (equalities proved) + exhaustive-to-a-length differential correspondence",
         "design": "DESIGN.md §3 C16",
     },
 })
@@ -136,7 +136,7 @@ PROPS["C05"] = {
             "1 s + 3 ms + 1 ms per waiting message after T. Tie: ~500 histories per quick run with due times at every phase of "
             "the clock and enqueues racing a polling consumer. Redis: due times are stored rounded UP to the second (fix recorded for C05) and the due-window query returns only scores <= floor(now): never early (C05_redis_*); lateness on Redis is bounded by the 0.1 s polling + 1 s rounding (observed, not proved). RabbitMQ: the delay is a per-message TTL rounded UP to the millisecond (fix recorded for C05) that runs out at the due time or later, and the server lets the message out of the delayed queue only then (C05_rabbit_*); 'never forgotten' is REFUTED (C05_rabbit_delayed_head_of_line_refuted: TTLs run out at the head of the queue only) and recorded.",
     "note": MEM_NOTE,
-    "technique": "Coq proof by invariant (due-time invariant over all histories) + differential correspondence in virtual time",
+    "technique": "Coq proof by invariant (due-time invariant over all histories) + schedule arithmetic and RabbitMQ expiration regenerated from source by a translator (equalities proved) + differential correspondence in virtual time",
     "design": "DESIGN.md §3 C05",
 }
 PROPS["C12"] = {
@@ -298,6 +298,6 @@ PROPS["C03"] = {
             "what it took). "
             "The return bound is checked by the oracle in virtual time, not proved. Actors are assumed to end when cancelled; cancelled "
             "tasks are assumed to end within the runner's 1 s allowance. Two-queue runs are checked by the oracle only.",
-    "technique": "Coq proof by ownership/counting invariant over all event sequences + crash-point enumeration with trace acceptance",
+    "technique": "Coq proof by ownership/counting invariants over all event sequences (worker shutdown; consumer hand-over pipeline) + crash-point enumeration with trace acceptance and refinement by state observation + Redis time-out test regenerated from source by a translator",
     "design": "DESIGN.md §3 C03",
 }
